@@ -618,6 +618,8 @@ def trig_events(ctx, count):
         case = {"n": n, "m": m, "F": F, "G": G,
                 "x": [rng.randint(-16, 16) / 8 for _ in range(n)], "u": [rng.randint(-16, 16) / 8 for _ in range(m)],
                 "t": rng.randint(0, 5), "d": None, "via": rng.choice(["args", "recent"])}
+        if i % 3 == 2:          # a non-integer reference time (e.g. step index x sampling period), given explicitly
+            case["t"], case["via"] = rng.randint(0, 40) / 8 + 0.125, "args"
         while True:
             d = [rng.choice([-1, 0, 1]) for _ in range(nv)]
             if any(d):
